@@ -70,7 +70,7 @@ def run(tier):
         rule="random star-shaped / holed / collapse-prone lattice polygons (validity decided by the TLA+ predicate ValidPolygon), "
              "40-95 % of coordinates aligned to pixel borders or centres, 1-3 tile matrices per call, random flags, 5 synthetic grids "
              "at random placements; every pair of returned edges of every tile matrix tested for a proper crossing by TLC",
-        min_valid_frac=0.3, classify=classify)
+        min_valid_frac=0.3, classify=classify, codesnap=(tier == "thorough"))
 
 
 def classify(inv, rec, grp):
